@@ -190,6 +190,15 @@ Theorem model_meets_spec : forall c, case_good c -> spec_on c = [].
 Proof. exact model_meets_spec_lemma. Qed.
 Print Assumptions model_meets_spec.
 
+(* ---- concurrent requests to one provider (PRACE cases, run under the deterministic scheduler): the model is the sequential
+   registry applied to the script - the answer must not depend on the interleaving - and the SPEC demands, for every pair of
+   handles, same identity <=> same instance, the requested scope on every instance, enabled per configurator.  The model
+   meets it; that the implementation does, for the explored schedules, is what ./check C19 tests (not a theorem about C++). *)
+Theorem concurrent_requests_model_meets_spec : forall kind r d threads, prace_good kind threads ->
+  spec_prace r d threads (prace_model kind r d threads) = [].
+Proof. exact model_meets_spec_prace. Qed.
+Print Assumptions concurrent_requests_model_meets_spec.
+
 (* the same, for the two extracted entry points as ./check composes them: the observation [run_model] prints parses back,
    and [run_spec] finds no failed clause in it *)
 Theorem model_meets_spec_wire : forall l c, parse_case l = Some c -> case_good c -> run_spec l (run_model l) = [].
